@@ -177,6 +177,7 @@ struct Hist {
     clone_rows: Option<Vec<Row>>,
     /// the branch the clone was taken from ("" = main)
     clone_src: String,
+    cloned: bool,
 }
 
 struct C09 {
@@ -252,7 +253,8 @@ impl C09 {
     }
 
     /// re-read everything the op was not allowed to change
-    fn recheck(&self, h: &Hist, m: Mut, line: usize, fails: &mut Vec<OracleFailure>) {
+    fn recheck(&self, h: &mut Hist, m: Mut, line: usize, fails: &mut Vec<OracleFailure>) {
+        let mut broken: Vec<(String, u64)> = vec![];
         for ((b, v), rows) in &h.snap {
             if !h.latest.contains_key(b) {
                 continue; // deleted by the harness itself
@@ -276,6 +278,7 @@ impl C09 {
                     Mut::Delete(_) => "delete_breaks_other_branch",
                     Mut::Additive => "write_changes_other_ref",
                 };
+                broken.push((b.clone(), *v));
                 fails.push(OracleFailure {
                     what: format!(
                         "after the op, ({},{v}) reads {:?}, expected {} rows {}",
@@ -299,7 +302,12 @@ impl C09 {
                 Mut::Delete(_) => "delete_breaks_other_branch",
                 Mut::Additive => "clone_changed",
             };
-            self.check_clone(h, key, line, fails);
+            if self.check_clone(h, key, line, fails) {
+                h.clone_rows = None; // reported once
+            }
+        }
+        for k in broken {
+            h.snap.remove(&k); // reported once
         }
         // tags resolve to what they were given
         if let Ok(main) = self.handle(h, &None) {
@@ -486,7 +494,7 @@ impl C09 {
             return match self.kit.create(&uri, &spec, &[rows.clone()], &knobs) {
                 Ok(ds) => {
                     let v = ds.version().version;
-                    let mut hh = Hist { uri, clone_uri, spec, snap: BTreeMap::new(), latest: BTreeMap::new(), parent: BTreeMap::new(), tags: BTreeMap::new(), clone_rows: None, clone_src: String::new() };
+                    let mut hh = Hist { uri, clone_uri, spec, snap: BTreeMap::new(), latest: BTreeMap::new(), parent: BTreeMap::new(), tags: BTreeMap::new(), clone_rows: None, clone_src: String::new(), cloned: false };
                     hh.snap.insert((String::new(), v), rows);
                     hh.latest.insert(String::new(), v);
                     *h = Some(hh);
@@ -509,6 +517,15 @@ impl C09 {
                     Ok(d) => d,
                     Err(e) => return format!("err {}", ref_err(&e)),
                 };
+                // does a dataset (live branch or zombie) already live at the target directory?
+                let target_exists = ds
+                    .find_branch_location(&name)
+                    .ok()
+                    .map(|l| {
+                        let p = std::path::Path::new("/").join(l.path.as_ref()).join("_versions");
+                        std::fs::read_dir(&p).map(|r| r.flatten().any(|f| f.path().is_file())).unwrap_or(false)
+                    })
+                    .unwrap_or(false);
                 match self.kit.block_on(ds.create_branch(&name, (src.clone(), Some(ver)), None)) {
                     Ok(nd) => {
                         let v = nd.version().version;
@@ -553,8 +570,11 @@ impl C09 {
                     }
                     Err(e) => {
                         self.recheck(h, Mut::Additive, line, &mut res.failures);
-                        res.tags.push(format!("branch:err:{}", ref_err(&e)));
-                        format!("err {}", ref_err(&e))
+                        // with a dataset already at the target the error kind depends on lance internals
+                        // (NotFound / Internal / …): one canonical class
+                        let kind = if target_exists { "target_exists" } else { ref_err(&e) };
+                        res.tags.push(format!("branch:err:{kind}"));
+                        format!("err {kind}")
                     }
                 }
             }
@@ -574,9 +594,12 @@ impl C09 {
                     Ok(nd) => {
                         let v = nd.version().version;
                         let key = br.clone().unwrap_or_default();
-                        let mut all = if over { vec![] } else { h.latest.get(&key).and_then(|lv| h.snap.get(&(key.clone(), *lv))).cloned().unwrap_or_default() };
-                        all.extend(rows);
-                        h.snap.insert((key.clone(), v), all);
+                        // (no expectation for a version built on one that was already reported broken)
+                        let base = if over { Some(vec![]) } else { h.latest.get(&key).and_then(|lv| h.snap.get(&(key.clone(), *lv))).cloned() };
+                        if let Some(mut all) = base {
+                            all.extend(rows);
+                            h.snap.insert((key.clone(), v), all);
+                        }
                         h.latest.insert(key, v);
                         self.recheck(h, Mut::Additive, line, &mut res.failures);
                         format!("ok v={v}")
@@ -765,7 +788,7 @@ impl C09 {
             ["clone", br, ver] => {
                 let br = br_untok(br);
                 let Ok(ver) = ver.parse::<u64>() else { return "err parse".into() };
-                if h.clone_rows.is_some() {
+                if h.cloned {
                     return "err parse".into();
                 }
                 let mut ds = match self.handle(h, &br) {
@@ -777,6 +800,7 @@ impl C09 {
                     Ok(nd) => {
                         let exp = h.snap.get(&(br.clone().unwrap_or_default(), ver)).cloned();
                         h.clone_rows = exp;
+                        h.cloned = true;
                         h.clone_src = br.clone().unwrap_or_default();
                         self.recheck(h, Mut::Additive, line, &mut res.failures);
                         format!("ok v={}", nd.version().version)
@@ -786,7 +810,7 @@ impl C09 {
             }
             ["cappend", rows] => {
                 let Some(rows) = parse_rows(rows) else { return "err parse".into() };
-                if !h.spec.check_rows(&rows) || h.clone_rows.is_none() {
+                if !h.spec.check_rows(&rows) || !h.cloned {
                     return "err parse".into();
                 }
                 let ds = match self.kit.open(&h.clone_uri, None) {
@@ -795,7 +819,9 @@ impl C09 {
                 };
                 match self.kit.append(&ds, &h.spec, &[rows.clone()], &knobs) {
                     Ok(nd) => {
-                        h.clone_rows.as_mut().unwrap().extend(rows);
+                        if let Some(cr) = h.clone_rows.as_mut() {
+                            cr.extend(rows);
+                        }
                         self.recheck(h, Mut::Additive, line, &mut res.failures);
                         format!("ok v={}", nd.version().version)
                     }
@@ -803,7 +829,7 @@ impl C09 {
                 }
             }
             ["cread"] => {
-                if h.clone_rows.is_none() {
+                if !h.cloned {
                     return "err parse".into();
                 }
                 match self.kit.open(&h.clone_uri, None).and_then(|ds| self.kit.scan(&ds, &h.spec, &ScanOpts::ordered()).map(|r| (ds.version().version, r))) {
@@ -815,13 +841,16 @@ impl C09 {
         }
     }
 
-    fn check_clone(&self, h: &Hist, key: &str, line: usize, fails: &mut Vec<OracleFailure>) {
+    /// true = the clone no longer reads what it should (reported)
+    fn check_clone(&self, h: &Hist, key: &str, line: usize, fails: &mut Vec<OracleFailure>) -> bool {
         if let Some(exp) = &h.clone_rows {
             let got = self.kit.open(&h.clone_uri, None).and_then(|ds| self.kit.scan(&ds, &h.spec, &ScanOpts::ordered()));
             if !matches!(&got, Ok(r) if r == exp) {
                 fails.push(OracleFailure { what: format!("the shallow clone reads {:?}, expected {}", got.map(|r| show_rows(&r)).map_err(|e| e.msg), show_rows(exp)), key: Some(key.into()), line });
+                return true;
             }
         }
+        false
     }
 }
 
